@@ -442,7 +442,6 @@ theorem main (hcl : Closed ctx S W) : ∀ r : Rule, noMatches r = true → PatsO
         · simp [NoFuel]
         · split
           · simp [NoFuel]
-          · simp [NoFuel]
           · have h2 := hPr n hn env f (by omega)
             cases hm : matchRule ctx f r n env with
             | error e => simp only [NoFuel]; intro h; injection h with h; subst h; exact h2 hm
